@@ -14,7 +14,9 @@ the random generator as an explicit value), the models tied to hcipy by harness/
   `finite_layer_translates`; counterexample `shift_axes_swapped_counterexample` (2×3 grid) for D16;
 * extrusion: `extrude_left/right/top/bottom`, `extrude_moves`, `extrudeN_moves`, `evolve_translates`,
   `screen_shape`, `direction_agrees_with_velocity`; `direction_old_counterexample` for D18;
-* scaling: `phase_inverse_wavelength`, `phase_sqrt_strength`.
+* scaling: `phase_inverse_wavelength`, `phase_sqrt_strength`;
+* periodicity: `shift_composes`, `shift_period_of_character`, `wrap_onto_one_period_counterexample`;
+* infinite-layer independence: `independent_only_on_request_infinite`, `independent_draws_fresh_numbers_infinite`.
 
 Hypothesis used by the spectral theorems: `χ` is an additive character (`χ (a+b) = χ a * χ b`) —
 satisfied by `t ↦ exp(i t)`; the counterexample uses the character `n ↦ (-1)^n` of `ℤ`.
@@ -471,6 +473,87 @@ theorem phase_sqrt_strength {K : Type} [Field K] [LinearOrder K] [IsStrictOrdere
 
 /-- non-vacuity: `c = 4`, `k = 3`: amplitudes 2 and 6 -/
 example : (0:ℚ) ≤ 3 ∧ (0:ℚ) ≤ 2 ∧ (0:ℚ) ≤ 6 ∧ (2:ℚ) ^ 2 = 4 ∧ (6:ℚ) ^ 2 = 3 ^ 2 * 4 := by norm_num
+
+
+/-! ## Periodicity: the shift is a character, never a wrap -/
+
+/-- **Shifts compose without reduction**: shifting by `s` and then by `t` is shifting by `s + t` — the code multiplies
+by `χ(−k·s)` with the *unreduced* displacement; nothing is ever folded back onto a period. Together with
+`shift_theorem` (which has no periodicity hypothesis): the screen at displacement `s` is `orig(x − s)` for every `s`,
+however many grid extents it spans. -/
+theorem shift_composes {K F : Type} [CommRing K] [CommRing F] (χ : K → F) (hχ : ∀ a b, χ (a + b) = χ a * χ b)
+    (sx sy tx ty : K) (kx ky : List K) (C : List F) :
+    shift χ tx ty kx ky (shift χ sx sy kx ky C) = shift χ (sx + tx) (sy + ty) kx ky C := by
+  unfold shift
+  rw [phases_eq_grid, phases_eq_grid, phases_eq_grid]
+  exact applyShift_applyShift χ hχ sx sy tx ty C _ _
+
+/-- **Periodicity is a property of the character on the frequency lattice**: a displacement `P` acts as the identity on
+one scale exactly through `χ(−k·P) = 1` for the frequencies `k` of *that* scale's lattice (extent for the FFT scale,
+oversampling × extent for the low-frequency scale) — if that holds for all of them, `s + P` and `s` give the same
+coefficients. -/
+theorem shift_period_of_character {K F : Type} [CommRing K] [CommRing F] (χ : K → F)
+    (hχ : ∀ a b, χ (a + b) = χ a * χ b) (sx sy px py : K) (kx ky : List K) (C : List F)
+    (hP : ∀ a ∈ kx, ∀ b ∈ ky, χ (-(py * b + px * a)) = 1) :
+    shift χ (sx + px) (sy + py) kx ky C = shift χ sx sy kx ky C := by
+  unfold shift
+  rw [phases_eq_grid, phases_eq_grid]
+  exact applyShift_period χ hχ sx sy px py C _ _
+    (fun a ha b hb => hP a (mem_gridX ha) b (mem_gridY hb))
+
+/-- the hypothesis of `shift_period_of_character` is satisfiable: frequencies `0, 2` (period 1 for `(−1)^n`) -/
+example : ∀ a ∈ [(0 : Int), 2], ∀ b ∈ [(0 : Int)], parity (-(0 * b + 1 * a)) = 1 := by decide
+
+/-- **Two scales, two periods: wrapping the displacement onto the shorter period is wrong.**  Scale 1 has
+frequencies `0, 2` (period 1 under `(−1)^n`), scale 2 has frequencies `0, 1` (period 2 = "oversampling 2").
+A displacement of one short period leaves scale 1 unchanged but not scale 2, so the two-scale screen shifted by 1
+differs from the one shifted by "1 wrapped onto the short period" = 0. -/
+theorem wrap_onto_one_period_counterexample :
+    let kx1 : List Int := [0, 2]; let kx2 : List Int := [0, 1]; let ky : List Int := [0]
+    let C1 : List Int := [1, 1]; let C2 : List Int := [1, 1]
+    shift parity 1 0 kx1 ky C1 = shift parity 0 0 kx1 ky C1 ∧
+    synth parity kx1 ky (shift parity 1 0 kx1 ky C1) 0 0 + synth parity kx2 ky (shift parity 1 0 kx2 ky C2) 0 0
+      ≠ synth parity kx1 ky (shift parity 0 0 kx1 ky C1) 0 0 + synth parity kx2 ky (shift parity 0 0 kx2 ky C2) 0 0 ∧
+    synth parity kx1 ky (shift parity 1 0 kx1 ky C1) 0 0 + synth parity kx2 ky (shift parity 1 0 kx2 ky C2) 0 0
+      = synth parity kx1 ky C1 (0 - 1) (0 - 0) + synth parity kx2 ky C2 (0 - 1) (0 - 0) := by decide
+
+/-! ## Independent realisations of the infinite layer -/
+
+/-- **Independent realisation only on request (infinite layer, 1)**: without an independent reset in the history —
+whatever evolutions, plain resets and parameter changes it contains — the realisation key and the original
+generator are those of the seed (position `nx + ny`, right after the stencil draws). -/
+theorem independent_only_on_request_infinite (nx ny : Nat) (delta vel : V2) (par : Par) (seed : Nat) (h : List Op)
+    (hh : ∀ o ∈ h, o.isIndep = false) :
+    ((InfL.new nx ny delta vel par seed).run h).start = nx + ny ∧
+    ((InfL.new nx ny delta vel par seed).run h).orig = ⟨seed, nx + ny⟩ := by
+  have h0 : (InfL.new nx ny delta vel par seed).Inv := InfL.reset_inv _ false rfl
+  have hi := InfL.run_inv h _ h0
+  have ho := (InfL.new nx ny delta vel par seed).run_orig h hh
+  have e : (InfL.new nx ny delta vel par seed).orig = ⟨seed, nx + ny⟩ := by
+    simp [InfL.new, InfL.fresh, InfL.reset, InfL.pickRng, InfL.initScreen, Rng.draw]
+  rw [hi.1, ho, e]
+  exact ⟨rfl, rfl⟩
+
+/-- **Independent realisation only on request (infinite layer, 2)**: when requested, the new realisation starts at the
+current position of the working generator, which lies behind the whole initial screen of the current realisation
+(and behind every extrusion drawn since): fresh numbers; and a later plain reset replays *this* realisation. -/
+theorem independent_draws_fresh_numbers_infinite (L : InfL) (hL : L.Inv) :
+    (L.reset true).start = L.rng.pos ∧ L.start + 4 * (L.nx * L.ny) ≤ (L.reset true).start ∧
+    ((L.reset true).reset false).view = (L.reset true).view ∧ (L.reset true).Inv := by
+  obtain ⟨h1, h2, h3⟩ := hL
+  refine ⟨?_, ?_, ?_, InfL.reset_inv _ true h3⟩
+  · simp [InfL.reset, InfL.pickRng, InfL.initScreen]
+  · simp only [InfL.reset, InfL.pickRng, InfL.initScreen, if_true]; omega
+  · simp [InfL.view, InfL.reset, InfL.pickRng, InfL.initScreen]
+
+/-- the invariant is satisfiable: every constructed layer has it -/
+example : (InfL.new 3 2 (1/4, 1/2) (1/4, 0) ⟨1, 10⟩ 7).Inv := InfL.reset_inv _ false rfl
+
+/-- non-square pixels (`δx = 1/4`, `δy = 1/2`): the pixel displacement of each axis is computed with that axis' own
+pixel size — wind `(1/4, −1/2)` per unit time moves the sample of pixel (0,1) to pixel (1,0) at `t = 1`
+(instance of `evolve_translates` / `direction_agrees_with_velocity` with `a = 1`, `b = −1`). -/
+example : ((InfL.new 3 3 (1/4, 1/2) (1/4, -1/2) ⟨1, 10⟩ 7).evolveWith sideX sideY 1).screen[0 * 3 + 1]?
+    = (InfL.new 3 3 (1/4, 1/2) (1/4, -1/2) ⟨1, 10⟩ 7).screen[1 * 3 + 0]? := by decide +kernel
 
 
 end HcipyVerif.C15
